@@ -69,7 +69,7 @@ func c12Doc(assign map[string]string, p map[string]string, rng *rand.Rand, zerod
 	step := [][2]any{
 		{"command", S("command")}, {"label", S("label")}, {"key", S("key")},
 		{"env", orderedJSON([][2]any{{S("envname"), S("envval")}, {"OTHER", "ov"}})},
-		{"plugins", []any{orderedJSON([][2]any{{S("pluginsrc"), orderedJSON([][2]any{{S("plugincfgkey"), S("plugincfgval")}, {"n", []any{S("plugincfgval"), 7, nil}}})}}), "./bare-plugin"}},
+		{"plugins", []any{orderedJSON([][2]any{{S("pluginsrc"), orderedJSON([][2]any{{S("plugincfgkey"), S("plugincfgval")}, {"n", []any{S("plugincfgval"), 7, nil}}})}}), "./bare-plugin", orderedJSON([][2]any{{"./scalar-config", S("plugincfgval")}})}},
 		{S("unkkey"), orderedJSON([][2]any{{"deep", []any{S("unkval"), orderedJSON([][2]any{{S("unkkey") + "2", S("unkval")}})}}})},
 		{"signature", orderedJSON([][2]any{{"algorithm", "EdDSA"}, {"signed_fields", []any{"command"}}, {"value", S("sigvalue")}})},
 	}
